@@ -50,17 +50,51 @@ Definition mobs (st : mstate) (o : option mresult) : list (list Z) :=
         exported st ]
   end.
 
-Fixpoint mrun_obs (cfg : mconfig) (st : mstate) (ops : list mop) : list (list Z) :=
+(* ---- long histories in compact form ---------------------------------------
+
+   A case operation is one membrane operation or a counted burst (Model.v:
+   burst_ops) of [count] filter calls on pre ++ decimal(start + k) ++ post.
+   A burst is observed in counted form: the statistics after its last call and
+   the run-length encoding of the per-call decisions
+   (allowed, threat level, number of matched signatures). *)
+Inductive cop :=
+  | COp (op : mop)
+  | CBurst (pre post : list Z) (start : Z) (count : nat).
+
+Definition expand (o : cop) : list mop :=
+  match o with COp op => [op] | CBurst pre post start count => burst_ops pre post start count end.
+
+Definition rkey (r : mresult) : list Z :=
+  [ b2z (r_allowed r); r_level r; Z.of_nat (length (r_matched r)) ].
+
+(* run-length encoding, flattened: key ++ [run length] for every maximal run *)
+Fixpoint rle_go (cur : list Z) (n : Z) (l : list (list Z)) : list Z :=
+  match l with
+  | [] => cur ++ [n]
+  | k :: rest => if zl_eq k cur then rle_go cur (n + 1) rest else cur ++ [n] ++ rle_go k 1 rest
+  end.
+Definition rle (l : list (list Z)) : list Z :=
+  match l with [] => [] | k :: rest => rle_go k 1 rest end.
+
+Definition burst_obs (st : mstate) (rs : list mresult) : list (list Z) :=
+  [ [ -8; Z.of_nat (length rs); Z.of_nat (length (m_audit st)); m_filtered st; m_nblocked st;
+      Z.of_nat (length (m_learned st)); Z.of_nat (length (m_blocked st)) ];
+    rle (map rkey rs) ].
+
+Fixpoint mrun_obs (cfg : mconfig) (st : mstate) (ops : list cop) : list (list Z) :=
   match ops with
   | [] => []
-  | op :: rest => let '(st', o) := mstep cfg st op in mobs st' o ++ mrun_obs cfg st' rest
+  | COp op :: rest => let '(st', o) := mstep cfg st op in mobs st' o ++ mrun_obs cfg st' rest
+  | CBurst pre post start count :: rest =>
+      let '(st', rs) := mrun cfg st (burst_ops pre post start count) in
+      burst_obs st' rs ++ mrun_obs cfg st' rest
   end.
 
 (* builtin indices kept, custom signatures, threshold, rate_limit,
    enable_adaptive, start time (ticks), operations *)
 Record mcase := mkMCase {
   mc_builtin : list nat; mc_custom : list sig; mc_threshold : Z; mc_rate : option Z;
-  mc_adaptive : bool; mc_t0 : Z; mc_ops : list mop }.
+  mc_adaptive : bool; mc_t0 : Z; mc_ops : list cop }.
 
 Definition run_mcase (c : mcase) : list (list Z) :=
   let cfg := mkMC py_cc (fun x => x) (mc_rate c) (mc_adaptive c) in
@@ -114,27 +148,38 @@ Definition run_scase (c : scase) : list (list Z) :=
 
 (* validators: the two transcribed shipped ones, or an oracle whose answer on
    each checked content is recorded from the run (JSONValidator, stubs) *)
-Inductive vdesc := VLen (mn mx : Z) | VChar (allow_ctrl allow_null : bool) | VOracle.
+Inductive vdesc :=
+  | VLen (mn mx : Z) | VChar (allow_ctrl allow_null : bool)
+  | VJson (max_depth max_size : Z)       (* transcribed; json.loads is the oracle *)
+  | VOracle.
 
-Definition interp_v (d : vdesc) (ans : verdict) : validator :=
-  match d with
-  | VLen mn mx => v_length mn mx
-  | VChar a b => v_charset a b
-  | VOracle => fun _ => ans
+(* what the run recorded for one validator on one checked content: the verdict
+   itself (harness stubs; a shipped validator that raised), or - for
+   JSONValidator - what json.loads did with the content *)
+Inductive answer := AV (v : verdict) | AP (p : parsed).
+
+Definition interp_v (d : vdesc) (ans : answer) : validator :=
+  match d, ans with
+  | VLen mn mx, _ => v_length mn mx
+  | VChar a b, _ => v_charset a b
+  | VJson md mx, AP p => v_json md mx (fun _ => p)
+  | VJson _ _, AV v => fun _ => v
+  | VOracle, AV v => fun _ => v
+  | VOracle, AP _ => fun _ => VRet true false
   end.
 
-Fixpoint interp_vs (ds : list vdesc) (answers : list verdict) : list validator :=
+Fixpoint interp_vs (ds : list vdesc) (answers : list answer) : list validator :=
   match ds with
   | [] => []
   | d :: ds' =>
       match answers with
       | a :: as' => interp_v d a :: interp_vs ds' as'
-      | [] => interp_v d (VRet true false) :: interp_vs ds' []
+      | [] => interp_v d (AV (VRet true false)) :: interp_vs ds' []
       end
   end.
 
 Inductive rop :=
-  | RI (op : iop) (answers : list verdict)     (* answers: one per validator, used by VOracle *)
+  | RI (op : iop) (answers : list answer)      (* answers: one per validator (VOracle, VJson) *)
   | RAddValidator (d : vdesc)
   | RSibling.     (* an operation on ANOTHER InnateImmunity instance built from the same pattern/validator objects: no effect here *)
 
